@@ -212,6 +212,7 @@ def _run_one(case, ctx):
     common.domain(m)
     ctx.call("to_ge_polyhedron(True)", m.to_ge_polyhedron, True)
     ctx.call("to_ge_polyhedron(False)", m.to_ge_polyhedron, active=False)
+    ctx.call("to_ge_polyhedron()", m.to_ge_polyhedron)          # the documented default is the un-asserted system
     if case.get("configurator"):
         ctx.count("count:configurator-polyhedra")
         ctx.call("ge_polyhedron", lambda: m.ge_polyhedron)
